@@ -28,6 +28,7 @@ type Profile struct {
 	DetBias     int  // per-mille probability of deterministic/explicit-time variants
 	FailReaders bool
 	Sign        int // per-mille probability that an operation is an (ed25519 DSSE, deterministic) Sign
+	Cli         bool // C15: histories of siftool invocations
 	Foreign     int // per-mille probability that a history starts from a foreign (Lean-encoded) image
 	BadMagic    int // per-mille probability, among foreign images, of a non-canonical magic/version
 }
